@@ -203,6 +203,17 @@ def replace_jobs(props):
     return f
 
 
+VIEWS = ['source', 'rope', 'buffer', 'size', 'writer', 'writerfail']
+
+
+def views_jobs(tier, seed):
+    jobs = []
+    for cat in (TREES_QUICK, REPLACE_QUICK, SMS_QUICK[:4]):
+        for t in cat:
+            jobs.append(J('views:' + t[0], 'jobs.streams:tree_job', dict(tree=t[1], props=['C07'], what=VIEWS, alphabet=t[2] if len(t) > 2 and isinstance(t[2], str) else 'q'), timeout=600))
+    return jobs
+
+
 def c13_jobs(tier, seed):
     jobs = []
     for t in C13_QUICK:
@@ -242,6 +253,8 @@ PROPS = {
     'C02': dict(jobs=[tree_jobs(['C02']), replace_jobs(['C02']), sms_jobs(['C02'])], bounds=RTREE_BOUNDS, outside=TREE_OUTSIDE + '; CachedSource / SourceMapSource trees until their stages are registered', assumptions=TREE_ASSUME),
     'C03': dict(jobs=[tree_jobs(['C03']), replace_jobs(['C03']), sms_jobs(['C03'])], bounds=RTREE_BOUNDS, outside=TREE_OUTSIDE, assumptions=TREE_ASSUME),
     'C04': dict(jobs=[tree_jobs(['C04']), replace_jobs(['C04'])], bounds=RTREE_BOUNDS, outside=TREE_OUTSIDE, assumptions=TREE_ASSUME),
+    'C07': dict(jobs=[views_jobs], bounds={'quick': 'all trees of TREES_QUICK, REPLACE_QUICK (symbolic replacement ranges) and four SourceMapSource shapes: source(), rope(), buffer(), size(), to_writer() into a recording writer, and to_writer() into a writer that fails after a SYMBOLIC number k <= 64 of bytes', 'thorough': 'as quick'},
+                outside='invalid UTF-8 buffers and multi-byte texts (lossy decoding is a std function; engine K covers RawSource/RawBufferSource byte views when registered); the real Rope representation (C16)', assumptions=TREE_ASSUME + ['std::io::Write is modelled by a recording writer whose write_all accepts a prefix and then fails']),
     'C08': dict(jobs=[sms_jobs(['C08'])], bounds={'quick': 'catalog lib/props.py:SMS_QUICK: SourceMapSource leaves over concrete ASCII texts (1-3 lines, empty lines, trailing line break, empty text) whose maps are mapping-string templates with up to 5 SYMBOLIC single-digit VLQ fields (values < 6; assumed sorted, inside the text, indices in range), 1-2 sources, 0-2 names, with/without sourcesContent, sourceRoot none / empty / r / r/; streamed directly in all four (columns x final) modes, through map(), as first and second child of a ConcatSource and under a ReplaceSource', 'thorough': 'as quick'},
                 outside='multi-digit VLQ fields in the given map (the decoder itself is C12), texts longer than 3 lines, the user-defined-source entry stream_chunks_default (same function underneath), non-ASCII text', assumptions=TREE_ASSUME),
     'C05': dict(jobs=[replace_jobs(['C05'])], bounds=RTREE_BOUNDS, outside='texts longer than the catalog, more than 4 replacements, non-ASCII texts (engine K covers the real String/Rope code on multi-byte shapes when registered); rope()/buffer()/size() views are C07', assumptions=TREE_ASSUME),
